@@ -21,6 +21,9 @@ PID = "C10"
 HORIZON = 14.0
 
 
+PROBE_RESTART_DELAY = __import__("datetime").timedelta(seconds=1.5)
+
+
 class BaseErr(BaseException):
     """A BaseException that is not an Exception (and not a cancellation)."""
 
@@ -28,6 +31,7 @@ class BaseErr(BaseException):
 def make_probe(scripts, log, extra_mode, restart_limit):
     class Probe(Actor):
         _restart_limit = restart_limit
+        RESTART_DELAY = PROBE_RESTART_DELAY  # overridden with a value that has a fractional part
 
         def __init__(self):
             super().__init__(name="probe")
@@ -105,7 +109,7 @@ def flatten(exc):
 
 
 def make_scenario(scripts, restart_limit, extra_mode, max_controls):
-    delay = Actor.RESTART_DELAY.total_seconds()
+    delay = PROBE_RESTART_DELAY.total_seconds()
 
     def scenario(ch: Chooser) -> Observation:
         obs = Observation()
@@ -509,7 +513,7 @@ def run(tier: str, seed: int, workers: int):
         "repeated), plus placement between two loop iterations as deviation (thorough); then a final stop().  Non-trivial = at "
         "least two _run invocations or a run that was cancelled.  Plus run(a, b) for 7x7 script pairs with cancellations.",
         "assumptions": [
-            "virtual clock; RESTART_DELAY as shipped (2 s); horizon 14 s",
+            "virtual clock; RESTART_DELAY overridden on the probe class with 1.5 s (a public class attribute; a value with a fractional part); horizon 14 s",
             "a stop() that has not returned once no timer is left within 3 restart delays counts as 'never returns'",
             "errors must be surfaced for the tasks registered when stop() is called or added while it is pending",
         ],
